@@ -809,8 +809,7 @@ OPS = {
     "__enter__": ("un", _with), "__exit__": ("un", _with),
     "__getstate__": ("un", lambda s: pickle.loads(pickle.dumps(s))), "__setstate__": ("un", lambda s: pickle.loads(pickle.dumps(s))),
 }
-NOT_OPERATORS = {"__hash__", "__abstractmethods__", "__annotations__", "__class_getitem__", "__dict__", "__doc__", "__init__", "__module__",
-                 "__slots__", "__subclasshook__", "__weakref__", "__torch_function__"}
+from .tr_c15 import NOT_OPERATORS  # noqa: E402  (shared with the reflection writer)
 
 
 def api_dunders():
@@ -1286,8 +1285,11 @@ def judge(case, o_tc, o_td, o_td2):
         sub = [v for k, v in res[1] if k == "'_tensordict'"]
         if sub:
             res = sub[0]
-    # (1) content
     ntkeys = [k for k, v in (o_tc.get("nt_before") or [])]
+    if case["name"] == "non_tensor_items" and not outer and isinstance(res, list) and res and res[0] in ("list", "tuple") and isinstance(res[1], list):
+        # fields held in _non_tensordict are listed too: they are not entries of the underlying tensordict
+        res = [res[0], [x for x in res[1] if not (isinstance(x, list) and x and x[0] == "tuple" and x[1] and x[1][0] in (["PY", repr(k)] for k in ntkeys))]]
+    # (1) content
     a, b = erase(res), erase(ref)
     a, b = resolve_refs(a, erase(o_tc.get("post"))), resolve_refs(b, erase(o_td.get("post")))
     a = drop_nt_fields(a, ntkeys, b)
@@ -1356,8 +1358,6 @@ def _ratom(c):
         return ["td", [], c[1] == "KWout"] if c[1] == "KWout" else "other"
     if c[0] == "TD" and len(c) == 7:
         return ["td", sorted(k for k, _ in c[6]), False]
-    if c[0] == "NT" and len(c) == 4:
-        return ["td", [], False]      # a NonTensorStack is a (lazy) TensorDictBase without keys of its own
     if c == ["PY", "None"]:
         return "none"
     return "other"
@@ -1377,8 +1377,6 @@ def _tatom(c, cls, same_td=None):
         return ["wrapped", ks, sorted([k, "none" if v == ["PY", "None"] else "val"] for k, v in c[3]), same_td]
     if c[0] == "TD" and len(c) == 7:
         return ["bare", sorted(k for k, _ in c[6])]
-    if c[0] == "NT" and len(c) == 4:
-        return ["bare", []]
     if c == ["PY", "None"]:
         return "none"
     return "other"
@@ -1407,6 +1405,8 @@ def abstract_pair(case, o_tc, o_td):
         res = o_tc["res"]
         if isinstance(res, list) and res and res[0] == "tuple" and isinstance(res[1], list):
             t = ["tuple"] + [_tatom(x, cls) for x in res[1]]
+        elif isinstance(res, list) and res and res[0] == "namedtuple":
+            t = ["tuple"] + [_tatom(x, cls) for _, x in res[2]]
         else:
             t = _tatom(res, cls, o_tc.get("res_same_td"))
     post = o_td.get("post")
